@@ -236,10 +236,19 @@ class Config:
                 "mode": self.mode, "t0": self.t0, "grid": self.grid}
 
 
+def x0_dtype(cfg):
+    """the initial state is handed over float-typed or integer-typed (head counts), decided by a hash of the configuration
+    name; models with explicit ODE terms always float"""
+    import zlib
+    if cfg.d.get("odes") or any(float(v) != int(v) for v in cfg.x0):
+        return float
+    return int if (zlib.crc32(cfg.name.encode()) & 1) else float
+
+
 def make_model(cfg):
     m, order = build.build(cfg.d)
     m.parameters = list(cfg.theta)
-    m.initial_values = (np.array(cfg.x0, float), np.float64(cfg.t0))
+    m.initial_values = (np.array(cfg.x0, dtype=x0_dtype(cfg)), np.float64(cfg.t0))
     mode = cfg.mode
     if mode[0] == "tau_fixed":
         m.pre_tau = mode[1]
